@@ -982,11 +982,15 @@ func checkHeredocCloserIndentedWithTabs(p *Prog, r *Result, rule string) int {
 			if !ok || e.Tag != nil {
 				return false
 			}
-			fv := selectorField(info, be.X)
+			x, y := be.X, be.Y
+			if tv0, ok := info.Types[x]; ok && tv0.Value != nil {
+				x, y = y, x // 0 == p.indentSpaces
+			}
+			fv := selectorField(info, x)
 			if fv == nil || fv.Name() != "indentSpaces" {
 				return false
 			}
-			tv, has := info.Types[be.Y]
+			tv, has := info.Types[y]
 			if !has || tv.Value == nil || tv.Value.ExactString() != "0" {
 				return false
 			}
